@@ -197,6 +197,23 @@ def rule_refcount_outputs(repo: Repo, rep: Report) -> None:
     rep.ob("G1-addref", ar, "add_ref: r.disposable is taken inside the subscribe function (one reference per subscription)", ok,
            "add_ref takes its reference on the RefCountDisposable when the window is *created*, not when it is subscribed: a window that is "
            "handed downstream but never subscribed keeps the source (and the boundary / closing subscriptions) alive for ever")
+    # ... and a reference that was taken is handed back on EVERY return of that subscribe function (must-hold per return): a path that
+    # returns only the inner subscription leaks the count -- the source is never released
+    from ..ctx import sites as _sites
+    for g, n in takes:
+        if m.role.get(g) != "subscribe":
+            continue
+        holders = {"<expr>"}
+        for x in g.direct_nodes():
+            if isinstance(x, ast.Assign) and len(x.targets) == 1 and isinstance(x.targets[0], ast.Name) and any(y is n for y in ast.walk(x.value)):
+                holders.add(x.targets[0].id)
+        for r_ in _sites(g):
+            if isinstance(r_.node, ast.Return):
+                v_ = r_.node.value
+                held = v_ is not None and (any(y is n for y in ast.walk(v_)) or any(isinstance(y, ast.Name) and y.id in holders for y in ast.walk(v_)))
+                rep.ob("G1-addref", g, f"add_ref: `{short(r_.node, 60)}` hands the reference taken on {rp} back", held,
+                       f"add_ref's subscribe function takes a reference on the RefCountDisposable (`{rp}.disposable` increments the count) and returns "
+                       f"`{short(r_.node, 60)}` without it on this path: the count never returns to zero and the source / boundary subscriptions are never disposed")
     rule_dependent_reference(repo, rep, "G1-addref")
     for f in sorted(m.l2_functions(), key=lambda f: f.ref):
         rvars = {}
